@@ -774,6 +774,25 @@ func TestCallerBuffersUntouched(t *testing.T) {
 				p = q
 			}
 		}
+		if n > 0 && n <= 70000 && rapid.IntRange(0, 2).Draw(t, "spareCap") == 0 {
+			// the caller's slice is the front part of a larger buffer of its own (one message out of a packed
+			// buffer): what lies behind len(p) is the caller's as well and must stay what it was
+			q := make([]byte, n, 2*n+rapid.IntRange(0, 16).Draw(t, "spare"))
+			copy(q, orig)
+			scribble(q[n:cap(q)])
+			p = q
+			hx.Class("caller-slice-with-spare-capacity>=len")
+		}
+		spare := p[len(p):cap(p)]
+		spareWas := append([]byte(nil), spare...)
+		defer func() {
+			if r := recover(); r != nil {
+				panic(r) // a failure reported further down: pass it on untouched
+			}
+			if !bytes.Equal(spare, spareWas) {
+				t.Fatalf("the bytes behind the caller's slice (len %d, cap %d) in its own backing array were overwritten: %x… -> %x…", len(p), cap(p), head(spareWas), head(spare))
+			}
+		}()
 		api := rapid.SampledFrom([]string{"WriteMessage", "WriteClientMessage", "WriteClientText", "WriteClientBinary", "WriteServerMessage", "WriteMessage/close",
 			"Writer.WriteThrough", "Writer.Write+scribble+Flush", "CipherWriter.Write", "MaskFrame", "MaskFrameWith", "UnmaskFrame"}).Draw(t, "api")
 		client := rapid.Bool().Draw(t, "client")
@@ -840,11 +859,19 @@ func TestCallerBuffersUntouched(t *testing.T) {
 			wsutil.WriteServerMessage(rec, ws.OpBinary, p)
 		case "Writer.WriteThrough":
 			w := wsutil.NewWriterSize(rec, state, ws.OpBinary, rapid.SampledFrom([]int{16, 128, 4096}).Draw(t, "wsize"))
+			if rapid.Bool().Draw(t, "sendext") {
+				// a send extension that leaves the header alone: the payload is still the caller's, not an encoder's
+				w.SetExtensions(wsutil.SendExtensionFunc(func(h ws.Header) (ws.Header, error) { return h, nil }))
+				hx.Class("Writer.WriteThrough/with-send-extension")
+			}
 			if _, err := w.WriteThrough(p); err != nil && rec.FailAt < 0 {
 				t.Fatal(err)
 			}
 		case "Writer.Write+scribble+Flush":
 			w := wsutil.NewWriterSize(rec, state, ws.OpBinary, rapid.SampledFrom([]int{16, 128, 4096, 8192}).Draw(t, "wsize"))
+			if rapid.Bool().Draw(t, "sendext") {
+				w.SetExtensions(wsutil.SendExtensionFunc(func(h ws.Header) (ws.Header, error) { return h, nil }))
+			}
 			if _, err := w.Write(p); err != nil && rec.FailAt < 0 {
 				t.Fatal(err)
 			}
